@@ -131,6 +131,66 @@ double paramValue(const ParamSpec &p, const std::string &key, double dflt) {
   return v;
 }
 
+bool refParamsValid(const ColoquinteParameters &p, std::string *why) {
+  auto bad = [&](const char *m) {
+    if (why) *why = m;
+    return false;
+  };
+  const auto &rl = p.global.roughLegalization;
+  if (rl.nbSteps < 0) return bad("rough legalization steps negative");
+  if (rl.binSize < 1.0f) return bad("bin size below 1");
+  if (rl.binSize > 25.0f) return bad("bin size above 25");
+  if (rl.lineReoptSize < 1 || rl.diagReoptSize < 1 || rl.squareReoptSize < 1) return bad("reopt size below 1");
+  if (rl.lineReoptOverlap < 1 || rl.diagReoptOverlap < 1 || rl.squareReoptOverlap < 1) return bad("reopt overlap below 1");
+  if (rl.lineReoptSize > 64 || rl.diagReoptSize > 64 || rl.squareReoptSize > 8) return bad("reopt size too large");
+  if (rl.lineReoptSize < 2 && rl.diagReoptSize < 2 && rl.squareReoptSize < 2 &&
+      (!rl.unidimensionalTransport || rl.costModel != LegalizationModel::L1))
+    return bad("no reopt value of 2 or more");
+  if (rl.lineReoptSize > 1 && rl.lineReoptOverlap >= rl.lineReoptSize) return bad("line overlap not smaller than size");
+  if (rl.diagReoptSize > 1 && rl.diagReoptOverlap >= rl.diagReoptSize) return bad("diag overlap not smaller than size");
+  if (rl.squareReoptSize > 1 && rl.squareReoptOverlap >= rl.squareReoptSize) return bad("square overlap not smaller than size");
+  if (rl.quadraticPenalty < 0.0 || rl.quadraticPenalty > 1.0) return bad("quadratic penalty outside [0,1]");
+  if (rl.targetBlending < -0.1 || rl.targetBlending > 0.9f) return bad("rough legalization target blending outside [-0.1,0.9]");
+  const auto &cm = p.global.continuousModel;
+  if (cm.approximationDistance < 1.0e-6) return bad("approximation distance too small");
+  if (cm.approximationDistanceUpdateFactor < 0.8 || cm.approximationDistanceUpdateFactor > 1.2) return bad("approximation update factor not close to 1");
+  if (cm.approximationDistance > 1.0e3) return bad("approximation distance too large");
+  if (cm.maxNbConjugateGradientSteps <= 0) return bad("CG steps not positive");
+  if (cm.conjugateGradientErrorTolerance < 1.0e-8) return bad("CG tolerance too small");
+  if (cm.conjugateGradientErrorTolerance > 1.0) return bad("CG tolerance too large");
+  const auto &pe = p.global.penalty;
+  if (pe.cutoffDistance < 1.0e-6) return bad("cutoff distance too small");
+  if (pe.cutoffDistanceUpdateFactor < 0.8 || pe.cutoffDistanceUpdateFactor > 1.2) return bad("cutoff update factor not close to 1");
+  if (pe.areaExponent < 0.49 || pe.areaExponent > 1.01) return bad("area exponent outside [0.5,1]");
+  if (pe.initialValue <= 0.0f) return bad("initial penalty not positive");
+  if (pe.updateFactor <= 1.0f || pe.updateFactor >= 2.0f) return bad("penalty update factor outside (1,2)");
+  if (pe.targetBlending < 0.1f || pe.targetBlending > 1.1f) return bad("penalty target blending outside [0.1,1.1]");
+  const auto &g = p.global;
+  if (g.maxNbSteps < 0) return bad("max steps negative");
+  if (g.nbInitialSteps < 0) return bad("initial steps negative");
+  if (g.nbInitialSteps >= g.maxNbSteps) return bad("initial steps not below max steps");
+  if (g.nbStepsBeforeRoughLegalization < 1) return bad("steps per legalization below 1");
+  if (g.gapTolerance < 0.0f || g.gapTolerance > 1.0f) return bad("gap tolerance outside [0,1]");
+  if (g.distanceTolerance < 0.0f) return bad("distance tolerance negative");
+  if (g.exportBlending < -0.5f || g.exportBlending > 1.5f) return bad("export blending outside [-0.5,1.5]");
+  if (g.noise < 0.0 || g.noise > 2.0) return bad("noise outside [0,2]");
+  if (g.penaltyUpdateDistance <= 0.0f) return bad("penalty update distance not positive");
+  if (g.penaltyUpdateBackoff < 1.0f) return bad("penalty update backoff below 1");
+  const auto &l = p.legalization;
+  if (l.costModel != LegalizationModel::L1) return bad("legalization model not L1");
+  if (l.orderingWidth > 2.0 || l.orderingWidth < -1.0) return bad("ordering width outside [-1,2]");
+  if (l.orderingY > 0.2 || l.orderingY < -0.2) return bad("ordering y outside [-0.2,0.2]");
+  const auto &d = p.detailed;
+  if (d.nbPasses < 0) return bad("passes negative");
+  if (d.localSearchNbNeighbours < 0) return bad("neighbours negative");
+  if (d.localSearchNbRows < 0) return bad("rows negative");
+  if (d.shiftNbRows <= 0) return bad("shift rows not positive");
+  if (d.shiftMaxNbCells < 0) return bad("shift cells negative");
+  if (d.reorderingNbRows <= 0) return bad("reordering rows not positive");
+  if (d.reorderingMaxNbCells < 0) return bad("reordering cells negative");
+  return true;
+}
+
 ColoquinteParameters buildParams(const ParamSpec &p) {
   ColoquinteParameters params(p.effort, p.seed);
   for (auto &kv : p.ov) applyOverride(params, kv.first, kv.second);
